@@ -3,18 +3,28 @@ use crate::core::{Acc, Ctx};
 use serde_json::Value;
 
 pub mod c01;
+pub mod c02;
 pub mod c06;
 pub mod c07;
 pub mod c08;
+pub mod c09;
+pub mod c13;
+pub mod c14;
 pub mod c15;
+pub mod c19;
 
 pub fn run(ctx: &Ctx, acc: &mut Acc) -> bool {
     match ctx.prop.as_str() {
         "C01" => c01::run(ctx, acc),
+        "C02" => c02::run(ctx, acc),
         "C06" => c06::run(ctx, acc),
         "C07" => c07::run(ctx, acc),
         "C08" => c08::run(ctx, acc),
+        "C09" => c09::run(ctx, acc),
+        "C13" => c13::run(ctx, acc),
+        "C14" => c14::run(ctx, acc),
         "C15" => c15::run(ctx, acc),
+        "C19" => c19::run(ctx, acc),
         _ => return false,
     }
     true
@@ -23,7 +33,7 @@ pub fn run(ctx: &Ctx, acc: &mut Acc) -> bool {
 /// Build profiles a property is explored under.
 pub fn profiles(id: &str) -> Vec<String> {
     let both = ["C03", "C04", "C12", "C15"];
-    let known = ["C01", "C06", "C07", "C08"];
+    let known = ["C01", "C02", "C06", "C07", "C08", "C09", "C13", "C14", "C19"];
     if both.contains(&id) {
         vec!["opt".into(), "chk".into()]
     } else if known.contains(&id) {
@@ -41,10 +51,15 @@ pub fn worker_death_is_violation(id: &str) -> bool {
 pub fn replay(id: &str, v: &Value) -> Option<(bool, String)> {
     match id {
         "C01" => c01::replay(v),
+        "C02" => c02::replay(v),
         "C06" => c06::replay(v),
         "C07" => c07::replay(v),
         "C08" => c08::replay(v),
+        "C09" => c09::replay(v),
+        "C13" => c13::replay(v),
+        "C14" => c14::replay(v),
         "C15" => c15::replay(v),
+        "C19" => c19::replay(v),
         _ => None,
     }
 }
@@ -52,20 +67,30 @@ pub fn replay(id: &str, v: &Value) -> Option<(bool, String)> {
 pub fn rule(id: &str) -> &'static str {
     match id {
         "C01" => c01::RULE,
+        "C02" => c02::RULE,
         "C06" => c06::RULE,
         "C07" => c07::RULE,
         "C08" => c08::RULE,
+        "C09" => c09::RULE,
+        "C13" => c13::RULE,
+        "C14" => c14::RULE,
         "C15" => c15::RULE,
+        "C19" => c19::RULE,
         _ => "",
     }
 }
 pub fn bounds(id: &str, quick: bool) -> Value {
     match id {
         "C01" => c01::bounds(quick),
+        "C02" => c02::bounds(quick),
         "C06" => c06::bounds(quick),
         "C07" => c07::bounds(quick),
         "C08" => c08::bounds(quick),
+        "C09" => c09::bounds(quick),
+        "C13" => c13::bounds(quick),
+        "C14" => c14::bounds(quick),
         "C15" => c15::bounds(quick),
+        "C19" => c19::bounds(quick),
         _ => Value::Null,
     }
 }
@@ -76,10 +101,15 @@ pub fn assumptions(id: &str) -> Vec<&'static str> {
     ];
     v.extend(match id {
         "C01" => c01::ASSUMPTIONS,
+        "C02" => c02::ASSUMPTIONS,
         "C06" => c06::ASSUMPTIONS,
         "C07" => c07::ASSUMPTIONS,
         "C08" => c08::ASSUMPTIONS,
+        "C09" => c09::ASSUMPTIONS,
+        "C13" => c13::ASSUMPTIONS,
+        "C14" => c14::ASSUMPTIONS,
         "C15" => c15::ASSUMPTIONS,
+        "C19" => c19::ASSUMPTIONS,
         _ => &[],
     });
     v
